@@ -2108,10 +2108,10 @@ static int64_t eval2(Node *node, char ***label) {
     *label = &node->unique_label;
     return 0;
   case ND_MEMBER:
-    if (!label)
-      error_tok(node->tok, "not a compile-time constant");
+    // Whether a relocation is needed is decided by what the member
+    // belongs to: a variable needs `label`, a constant address does not.
     if (node->ty->kind != TY_ARRAY)
-      error_tok(node->tok, "invalid initializer");
+      error_tok(node->tok, label ? "invalid initializer" : "not a compile-time constant");
     return eval_rval(node->lhs, label) + node->member->offset;
   case ND_VAR:
     if (!label)
@@ -2143,10 +2143,29 @@ static int64_t eval_rval(Node *node, char ***label) {
   error_tok(node->tok, "invalid initializer");
 }
 
+// An lvalue that lives at an address known at compile time without a
+// relocation: a member (of a member ...) of an object at a constant
+// address. offsetof() in stddef.h is `(size_t)&(((type *)0)->member)`.
+static bool is_const_lvalue(Node *node) {
+  switch (node->kind) {
+  case ND_MEMBER:
+    return is_const_lvalue(node->lhs);
+  case ND_DEREF:
+    return is_const_expr(node->lhs);
+  }
+  return false;
+}
+
 static bool is_const_expr(Node *node) {
   add_type(node);
 
   switch (node->kind) {
+  case ND_ADDR:
+    return is_const_lvalue(node->lhs);
+  case ND_MEMBER:
+  case ND_DEREF:
+    // An array stands for the address of its first element.
+    return node->ty->kind == TY_ARRAY && is_const_lvalue(node);
   case ND_ADD:
   case ND_SUB:
   case ND_MUL:
